@@ -831,6 +831,36 @@ func caseC(f []string) string {
 	return "enc=" + enc + "\tdec=" + dec + "\tdenc=" + denc + "\tddec=" + ddec
 }
 
+// H: a history - every value is encoded first (the encoded objects are held), then every held object is
+// checked against the bytes it had right after its own encode and decoded.  An encoder that hands out
+// storage it reuses later shows up here and nowhere in single round trips.
+func caseH(f []string) string {
+	codec := f[2]
+	ctx := context.Background()
+	var held []object.Object
+	var snaps []string
+	var outs []string
+	for _, vt := range strings.Split(f[4], "|") {
+		v := parseValues(vt)[0]
+		var obj object.Object
+		s := guarded(func() object.Object {
+			obj = builtins.Encode(ctx, v, object.NewString(codec))
+			return obj
+		})
+		held = append(held, obj)
+		snaps = append(snaps, s)
+	}
+	for i, obj := range held {
+		now, dec := "-", "-"
+		if obj != nil && !strings.HasPrefix(snaps[i], "e:") && !strings.HasPrefix(snaps[i], "P:") {
+			now = show(obj)
+			dec = codecCall(f[3], "decode", codec, obj)
+		}
+		outs = append(outs, fmt.Sprintf("enc%d=%s\tnow%d=%s\tdec%d=%s", i, snaps[i], i, now, i, dec))
+	}
+	return fmt.Sprintf("n=%d\t%s", len(held), strings.Join(outs, "\t"))
+}
+
 func caseD(f []string) string {
 	codec, route := f[2], f[3]
 	v := parseValues(f[4])[0]
@@ -892,6 +922,8 @@ func handle(line string) string {
 			out = caseW(f)
 		case "C":
 			out = caseC(f)
+		case "H":
+			out = caseH(f)
 		case "D":
 			out = caseD(f)
 		case "J":
